@@ -72,6 +72,8 @@ def install(store=None, ids=None, use_mdt=True, now=0, size=None, real_parse=Fal
             import datetime as _dt
             import pytz
             base = _dt.datetime(2026, 1, 1)
+            s3m.timedelta = _dt.timedelta
+            fac.pytz = pytz
 
             class FrozenDT(_dt.datetime):
                 NOW = None
